@@ -2,6 +2,9 @@
   C24 helper lemmas: big-endian fixed-width integers, `natBytes` (= big.Int.Bytes), bit lengths.
 -/
 import XC.Model.C24
+
+deriving instance DecidableEq for Except
+
 namespace XC.C24
 
 theorem natOfLE_append (a b : Bytes) : natOfLE (a ++ b) = natOfLE a + 256 ^ a.length * natOfLE b := by
